@@ -228,6 +228,10 @@ def structural_violations(graph, job):
     return out
 
 
+class LoweringFailed(Exception):
+    """graph2job raised on a well-formed graph with unique node names."""
+
+
 class Refused(Exception):
     """graph2job declined the graph (e.g. two nodes under one name): a legitimate outcome, nothing to run."""
 
@@ -242,7 +246,9 @@ def materialise(gp):
     except AssertionError:
         if dup:
             raise Refused("duplicate node names")
-        raise
+        raise LoweringFailed("AssertionError")
+    except Exception as e:  # noqa
+        raise LoweringFailed(repr(e)[:200])
     if dup:
         # it lowered a graph in which two different nodes share a name: one of them is gone
         from cascade.low.core import JobInstance
